@@ -239,12 +239,100 @@ def part_eol(args, out):
     os._exit(0)
 
 
+def _lifecycle(kind):
+    from loky.process_executor import ProcessPoolExecutor
+    from loky import get_reusable_executor
+    if kind == "plain-clean":
+        e = ProcessPoolExecutor(2)
+        assert list(e.map(abs, [-1, -2])) == [1, 2]
+        e.shutdown(wait=True)
+    elif kind == "plain-kill":
+        e = ProcessPoolExecutor(2)
+        f = e.submit(time.sleep, 30)
+        time.sleep(0.2)
+        e.shutdown(wait=True, kill_workers=True)
+    elif kind == "plain-broken":
+        e = ProcessPoolExecutor(2)
+        try:
+            e.submit(crash, 1).result(timeout=20)
+        except BaseException:
+            pass
+        e.shutdown(wait=True)
+    elif kind == "plain-timeout":
+        e = ProcessPoolExecutor(2, timeout=0.3)
+        assert e.submit(abs, -1).result(timeout=20) == 1
+        time.sleep(1.0)
+        assert e.submit(abs, -2).result(timeout=20) == 2
+        e.shutdown(wait=True)
+    elif kind == "reusable-clean":
+        e = get_reusable_executor(2, timeout=5)
+        assert e.submit(abs, -1).result(timeout=20) == 1
+        e.shutdown(wait=True)
+    elif kind == "reusable-resized":
+        e = get_reusable_executor(2, timeout=5)
+        assert e.submit(abs, -1).result(timeout=20) == 1
+        e = get_reusable_executor(3, timeout=5)
+        assert e.submit(abs, -1).result(timeout=20) == 1
+        e = get_reusable_executor(1, timeout=5)
+        e.shutdown(wait=True)
+    elif kind == "reusable-broken-replaced":
+        e = get_reusable_executor(2, timeout=5)
+        try:
+            e.submit(crash, 1).result(timeout=20)
+        except BaseException:
+            pass
+        e = get_reusable_executor(2, timeout=5)
+        assert e.submit(abs, -1).result(timeout=20) == 1
+        e.shutdown(wait=True)
+    del e
+
+
+def _account():
+    import multiprocessing
+    _settle()
+    time.sleep(0.2)
+    _settle()
+    pid = os.getpid()
+    fds = sorted(os.listdir("/proc/self/fd"))
+    kids = []
+    for d in os.listdir("/proc"):
+        if d.isdigit():
+            try:
+                st = open(f"/proc/{d}/stat").read().rsplit(")", 1)[1].split()
+                if int(st[1]) == pid:
+                    cmd = open(f"/proc/{d}/cmdline", "rb").read()
+                    if b"resource_tracker" not in cmd:
+                        kids.append((int(d), st[0]))
+            except (OSError, IndexError, ValueError):
+                pass
+    return dict(fds=len(fds), threads=sorted(t.name for t in threading.enumerate()),
+                children=kids, sems=len(own_sems()))
+
+
+def part_life(args, out):
+    """C20: a sequence of lifecycles run once, then twice more; counts must not grow."""
+    seq = args["sequence"]
+    # warm-up: whatever is started on first use (trackers, contexts) is excluded
+    _lifecycle("plain-clean")
+    base = _account()
+    for k in seq:
+        _lifecycle(k)
+    a1 = _account()
+    for _ in range(2):
+        for k in seq:
+            _lifecycle(k)
+    a3 = _account()
+    with open(out, "w") as f:
+        json.dump(dict(base=base, once=a1, thrice=a3), f)
+    os._exit(0)
+
+
 def main():
     part, args, out = sys.argv[1], json.loads(sys.argv[2]), sys.argv[3]
     wd = threading.Timer(float(args.get("watchdog", 120)), lambda: os._exit(97))
     wd.daemon = True
     wd.start()
-    dict(sem=part_sem, tracker=part_tracker, eol=part_eol)[part](args, out)
+    dict(sem=part_sem, tracker=part_tracker, eol=part_eol, life=part_life)[part](args, out)
 
 
 if __name__ == "__main__":
